@@ -131,7 +131,7 @@ func (c *Characteristic) updateValue(value interface{}, conn net.Conn, checkPerm
 		value = c.clampInt(value.(int))
 	}
 
-	if c.Value == value && !c.updateOnSameValue {
+	if sameValue(c.Value, value) && !c.updateOnSameValue {
 		return
 	}
 
